@@ -1,4 +1,4 @@
 SPECIFICATION Spec
 INVARIANTS TypeOK MsgsPrefix OkMeansAll TerminalUnique TermSource HeaderReads HeaderFrozen TrailerReads ServerGotClientMsgs PendingIsBlocked NoDeadEnd QuietAfterSeenCancel
 CONSTANT HandsOverSendersMessage = FALSE
-CONSTANT LateSetHeaderJoins = FALSE
+CONSTANT LateSetHeaderJoins = TRUE
